@@ -57,6 +57,11 @@ def items(tier: str, seed: int) -> list[dict]:
         out.extend(ee.sharded(base, shards if base["workers"] > 1 else 1))
 
     # unit phase, 2 workers: API behaviours x failure limit x continue_on_failure (every stop / Ctrl-C point, every pre-emption)
+    # the smallest runs under TWO pre-emptions (one worker, one operation, one example): e.g. the consumer's queue time-out
+    # firing while the worker is active and the worker finishing before the consumer looks at it
+    add(doc="one_b", workers=1, behaviour="ok", p=2, e=0, total=2)
+    add(doc="one_b", workers=1, behaviour="all500", p=2, e=0, total=2)
+    add(doc="one_a", workers=1, behaviour="all500", max_failures=1, p=2, e=0, total=2)
     add(behaviour="ok")
     add(behaviour="fail:/b", max_failures=1)
     add(behaviour="all500", max_failures=1)
